@@ -1104,6 +1104,34 @@ func (c *Ctx) RequireAnyGate(rule string, fn *ssa.Function, gates []Gate, minSit
 				c.Violate(rule, construct, c.P.Pos(instrPos(hdr)), fmt.Sprintf("in %s the loop at %s can proceed to its next iteration (element accepted) without crossing the pass edge of (%s); witness %s", FuncName(fn), c.P.Pos(instrPos(hdr)), strings.Join(names, " ∨ "), r.Path(c.P, hdr)))
 				return false
 			}
+			// every element must be checked: the loop must not be left early (break / return
+			// from the body) towards an accepting sink — only the header's own exit and error
+			// exits leave it
+			errEdges := map[Edge]bool{}
+			for e := range base {
+				errEdges[e] = true
+			}
+			for e := range ErrorExitEdges(fn) {
+				errEdges[e] = true
+			}
+			for b := range common.Blocks {
+				if b == common.Header {
+					continue
+				}
+				for si, s := range b.Succs {
+					if common.Blocks[s] || errEdges[Edge{b, si}] {
+						continue
+					}
+					er := Reach(fn, ReachOpts{Removed: errEdges, Starts: []*ssa.BasicBlock{s}})
+					for _, sk := range sinks {
+						if er.Reachable(sk) {
+							last := b.Instrs[len(b.Instrs)-1]
+							c.Violate(rule, construct+"|every element", c.P.Pos(instrPos(last)), fmt.Sprintf("in %s the per-element loop at %s can be left from its body (%s) towards '%s' at %s before the remaining elements were checked", FuncName(fn), c.P.Pos(instrPos(hdr)), c.P.Pos(instrPos(last)), sinkDesc, c.P.Pos(instrPos(sk))))
+							return false
+						}
+					}
+				}
+			}
 			c.Hold(rule, construct, c.P.Pos(fn.Pos()), fmt.Sprintf("the per-element loop cannot reach its next iteration once the pass edges of (%s) are removed", strings.Join(names, " ∨ ")))
 			return true
 		}
@@ -1132,6 +1160,229 @@ func (g Gate) FailEdges(fn *ssa.Function) map[Edge]bool {
 			e := Edge{From: s.Block(), Succ: si}
 			if !pass[e] {
 				out[e] = true
+			}
+		}
+	}
+	return out
+}
+
+// ErrorExitsReachable explores fn forward from instruction `from` (exclusive),
+// not crossing removed edges and stopping at instructions for which cut is
+// true, and returns the returns that can be reached while the function's error
+// result may be non-nil ON THAT PATH. When the error result lives in a local
+// cell (named result) the exploration is path-sensitive in one bit: crossing
+// the nil side of `if err != nil` (a test of a load of the cell) makes the
+// error known nil until the next store to the cell; a store of the nil
+// constant does the same. Otherwise MaybeErrorExit decides per return.
+// nilOnEdge: v is known nil when control flows from block pr into block to:
+// pr ends with a test of v against nil and `to` is the nil side, or v is
+// known nil at the end of pr.
+func nilOnEdge(v ssa.Value, pr, to *ssa.BasicBlock) bool {
+	if IsNilConst(v) {
+		return true
+	}
+	if len(pr.Instrs) == 0 {
+		return false
+	}
+	last := pr.Instrs[len(pr.Instrs)-1]
+	if iff, ok := last.(*ssa.If); ok {
+		a := AtomOf(iff)
+		if (a.Op == token.EQL || a.Op == token.NEQ) && a.Y != nil {
+			var x ssa.Value
+			if IsNilConst(a.Y) {
+				x = a.X
+			} else if IsNilConst(a.X) {
+				x = a.Y
+			}
+			if x == v {
+				nilSucc := a.TrueSucc()
+				if a.Op == token.NEQ {
+					nilSucc = 1 - nilSucc
+				}
+				if nilSucc < len(pr.Succs) && pr.Succs[nilSucc] == to && pr.Succs[1-nilSucc] != to {
+					return true
+				}
+			}
+		}
+	}
+	return KnownNil(v, last)
+}
+
+func ErrorExitsReachable(fn *ssa.Function, from ssa.Instruction, cut func(ssa.Instruction) bool, removed map[Edge]bool) []*ssa.Return {
+	ei := ErrIndex(fn)
+	var cell *ssa.Alloc
+	cellMode := ei >= 0
+	if cellMode {
+		for _, r := range Returns(fn) {
+			ret := r.(*ssa.Return)
+			if ei >= len(ret.Results) {
+				cellMode = false
+				break
+			}
+			u, ok := ret.Results[ei].(*ssa.UnOp)
+			if !ok {
+				cellMode = false
+				break
+			}
+			al, ok := u.X.(*ssa.Alloc)
+			if !ok || (cell != nil && al != cell) {
+				cellMode = false
+				break
+			}
+			cell = al
+		}
+	}
+	if !cellMode || cell == nil {
+		r := Reach(fn, ReachOpts{From: from, Cut: cut, Removed: removed})
+		var out []*ssa.Return
+		for _, x := range Returns(fn) {
+			ret := x.(*ssa.Return)
+			if !r.Reachable(x) || !MaybeErrorExit(ret) {
+				continue
+			}
+			// error result is a phi of the return's own block: the return is an error exit
+			// only through a reachable predecessor whose operand may be non-nil on that edge
+			if ei >= 0 && ei < len(ret.Results) {
+				if phi, ok := ret.Results[ei].(*ssa.Phi); ok && phi.Block() == ret.Block() {
+					viaErr := false
+					for i, e := range phi.Edges {
+						pr := phi.Block().Preds[i]
+						if len(pr.Instrs) == 0 || !r.Reachable(pr.Instrs[len(pr.Instrs)-1]) {
+							continue
+						}
+						edgeRemoved := false
+						for si, s := range pr.Succs {
+							if s == phi.Block() && removed[Edge{pr, si}] {
+								edgeRemoved = true
+							}
+						}
+						if edgeRemoved || nilOnEdge(e, pr, phi.Block()) {
+							continue
+						}
+						viaErr = true
+					}
+					if !viaErr {
+						continue
+					}
+				} else if v := ret.Results[ei]; len(ret.Block().Preds) > 0 {
+					// same value on every incoming edge: an error exit only through a reachable
+					// predecessor edge on which the value is not known nil
+					def, isInstr := v.(ssa.Instruction)
+					if !isInstr || def.Block() != ret.Block() {
+						viaErr := false
+						for _, pr := range ret.Block().Preds {
+							if len(pr.Instrs) == 0 || !r.Reachable(pr.Instrs[len(pr.Instrs)-1]) {
+								continue
+							}
+							edgeRemoved := false
+							for si, s := range pr.Succs {
+								if s == ret.Block() && removed[Edge{pr, si}] {
+									edgeRemoved = true
+								}
+							}
+							if edgeRemoved || nilOnEdge(v, pr, ret.Block()) {
+								continue
+							}
+							viaErr = true
+						}
+						if !viaErr {
+							continue
+						}
+					}
+				}
+			}
+			out = append(out, ret)
+		}
+		return out
+	}
+	type st struct {
+		b   *ssa.BasicBlock
+		i   int
+		nil bool
+	}
+	seen := map[st]bool{}
+	var out []*ssa.Return
+	outSeen := map[*ssa.Return]bool{}
+	// start after `from`
+	startB := from.Block()
+	startI := 0
+	for i, in := range startB.Instrs {
+		if in == from {
+			startI = i + 1
+		}
+	}
+	work := []st{{startB, startI, false}}
+	for len(work) > 0 {
+		s := work[len(work)-1]
+		work = work[:len(work)-1]
+		if seen[s] {
+			continue
+		}
+		seen[s] = true
+		known := s.nil
+		stopped := false
+		for i := s.i; i < len(s.b.Instrs) && !stopped; i++ {
+			in := s.b.Instrs[i]
+			if cut != nil && cut(in) {
+				stopped = true
+				break
+			}
+			switch x := in.(type) {
+			case *ssa.Store:
+				if x.Addr == ssa.Value(cell) {
+					known = IsNilConst(x.Val)
+				}
+			case *ssa.Return:
+				if !known && !outSeen[x] {
+					outSeen[x] = true
+					out = append(out, x)
+				}
+				stopped = true
+			case *ssa.If:
+				a := AtomOf(x)
+				testsCell := false
+				nilWhenTrue := false
+				if (a.Op == token.EQL || a.Op == token.NEQ) && a.Y != nil {
+					var v ssa.Value
+					if IsNilConst(a.Y) {
+						v = a.X
+					} else if IsNilConst(a.X) {
+						v = a.Y
+					}
+					if u, ok := v.(*ssa.UnOp); ok && u.X == ssa.Value(cell) {
+						// the load must be of the current content: no store between load and test
+						testsCell = true
+						for j := i - 1; j >= 0; j-- {
+							if s.b.Instrs[j] == ssa.Instruction(u) {
+								break
+							}
+							if stx, ok := s.b.Instrs[j].(*ssa.Store); ok && stx.Addr == ssa.Value(cell) {
+								testsCell = false
+							}
+						}
+						if u.Block() != s.b {
+							testsCell = false
+						}
+						nilWhenTrue = a.Op == token.EQL
+					}
+				}
+				for si, succ := range s.b.Succs {
+					if removed[Edge{s.b, si}] {
+						continue
+					}
+					k := known
+					if testsCell {
+						atomTrue := si == a.TrueSucc()
+						k = atomTrue == nilWhenTrue
+					}
+					work = append(work, st{succ, 0, k})
+				}
+				stopped = true
+			case *ssa.Jump:
+				if !removed[Edge{s.b, 0}] {
+					work = append(work, st{s.b.Succs[0], 0, known})
+				}
+				stopped = true
 			}
 		}
 	}
